@@ -56,6 +56,11 @@ def gen(rng):
             lockmode = "absent"
         else:
             wm["lock"] = core.lock_text(lockv)
+    if rng.random() < 0.1:
+        # what a run that died between writing the lock's sibling file and renaming it leaves behind - long ago, with a value
+        # that has nothing to do with the IDs now in the tree
+        wm["extra"]["proj/Breadlog.lock.tmp"] = {"t": "f", "mode": 0o644, "data": rng.choice(
+            [core.lock_text(rng.randrange(1, 6)), core.lock_text(rng.randrange(1, 200)), b"", b"---\nnext_refere"])}
     knobs = {"threads": rng.randrange(1, 5), "config_arg": rng.choice(["rel", "abs"])}
     knobs = scen.env_knobs(rng, knobs)
     plan = {"seed": rng.getrandbits(48) | 1, "perm": True, "faults": []}
